@@ -7,6 +7,7 @@ import (
 	"go/constant"
 	"go/token"
 	"go/types"
+	"strings"
 
 	"golang.org/x/tools/go/ssa"
 )
@@ -15,7 +16,7 @@ func init() {
 	register(&propDef{
 		ID: "C20",
 		Meta: propMeta{
-			Explanation: "Structural necessary conditions of the health property, decided on the SSA form of package server: (R20a) no select-loop can re-enter its select from the case that receives from a close-signalling channel (a closed channel is always ready, so re-entry is a busy spin) — module-wide, with the server's health loop as required instance; (R20b) the package-level health counters are written only by the initialiser and the checker and every access after the loop goroutine is started holds healthMu; (R20c) Server.Close closes the channel the loop selects on, exactly once, and exactly one loop goroutine is started; (R20d) Healthy() can return true only on a path where Disabled is false, the staleness comparison (elapsed > 3*interval) is false, and its value is (counter > 0); (R20e) the value the checker stores into the counter is the configured N exactly when no token failed, otherwise counter-1 guarded by counter>0, otherwise unchanged; a token counts as failed exactly when Ping returned an error.",
+			Explanation: "Structural necessary conditions of the health property, decided on the SSA form of package server: (R20a) no select-loop can re-enter its select from the case that receives from a close-signalling channel (a closed channel is always ready, so re-entry is a busy spin) — module-wide, with the server's health loop as required instance; (R20b) the package-level health counters are written only by the initialiser and the checker and every access after the loop goroutine is started holds healthMu; (R20c) Server.Close closes the channel the loop selects on, exactly once, and exactly one loop goroutine is started; (R20d) Healthy() can return true only on a path where Disabled is false, the staleness comparison (elapsed > 3*interval) is false, and its value is (counter > 0); (R20e) the value the checker stores into the counter is the configured N exactly when no token failed, otherwise counter-1 guarded by counter>0, otherwise unchanged; a token counts as failed exactly when Ping returned an error. (R20f) every completed check refreshes healthLastPing on every path (staleness means the checker stopped, not that tokens fail); the worker's periodic check runs Ping in its own goroutine and waits in a select that includes the timeout context's Done channel, so a token whose Ping ignores its context cannot wedge the loop.",
 			NotDecided:  "the arithmetic over whole check histories and elapsed time (no execution, no model of time); that Ping itself reflects token state.",
 			Assumptions: []string{"a receive from a closed channel never blocks (Go spec)", "sync.Mutex provides mutual exclusion"},
 		},
@@ -361,6 +362,7 @@ func runC20(c *Ctx) {
 
 	// ---- R20e healthCheck hysteresis
 	c20Hysteresis(c, re)
+	c20Liveness(c)
 }
 
 // isStaleCompare: v is `time.Since(healthLastPing) > 3 * s.healthCheckInterval()`
@@ -621,4 +623,92 @@ func c20Hysteresis(c *Ctx, re string) {
 			c.Check(len(missing) == 0, re, key, p.Pos(r.Pos()), fmt.Sprintf("returns %v only when %s", b, g.Name), fmt.Sprintf("pingOne returns %v without %s", b, g.Name), path...)
 		}
 	}
+}
+
+// ------------------------------------------------------------------------------ R20f
+
+// c20Liveness: (a) every completed check refreshes the "last checked" time, whatever its
+// outcome (staleness must mean "the checker stopped running", not "the tokens are failing");
+// (b) the worker's periodic check bounds each ping by a timeout that does not rely on the
+// token honouring its context: the ping runs in its own goroutine and the loop waits in a
+// select that also has the context's Done case.
+func c20Liveness(c *Ctx) {
+	p := c.P
+	c.Rule("R20f", "every completed check refreshes the last-check time; the worker's ping is bounded by a timeout independent of the token", 3)
+	hc := p.Func("server.(*Server).healthCheck")
+	if hc == nil {
+		c.Undecided("R20f", "healthCheck", "-", "function not found")
+	} else {
+		var st *ssa.Store
+		for _, b := range hc.Blocks {
+			for _, in := range b.Instrs {
+				if s, ok := in.(*ssa.Store); ok && p.memKey(s.Addr) == "g:server.healthLastPing" {
+					st = s
+				}
+			}
+		}
+		ok := st != nil
+		if ok {
+			for _, r := range returnsOf(hc) {
+				if avoidable(hc, st, r) {
+					ok = false
+				}
+			}
+			// the stored value is the current time
+			call, _ := resultOf(st.Val)
+			if call == nil || p.calleeName(call.Common()) != "time.Now" {
+				ok = false
+			}
+		}
+		c.Check(ok, "R20f", "healthCheck refreshes healthLastPing on every path", p.Pos(hc.Pos()), "unconditional store of time.Now()", "a completed check can return without refreshing healthLastPing: after three failing checks the status is reported as stale and unhealthy whatever token_check_failures says, so the configured hysteresis above 3 never applies")
+	}
+	wh := p.Func("cmdline/workercmd.(*handler).healthCheck")
+	if wh == nil {
+		c.Undecided("R20f", "workercmd healthCheck", "-", "function not found")
+		return
+	}
+	c.Analysed(p.FName(wh))
+	// the Ping call sits in a goroutine body, not in the loop itself
+	direct := false
+	inGo := false
+	for _, f := range withClosures(wh) {
+		for _, b := range f.Blocks {
+			for _, in := range b.Instrs {
+				ci, ok := in.(ssa.CallInstruction)
+				if !ok {
+					continue
+				}
+				n := p.calleeName(ci.Common())
+				if !strings.HasSuffix(n, ").Ping") {
+					continue
+				}
+				if f == wh {
+					direct = true
+				} else if mc := closureMaker(wh, f); mc != nil {
+					for _, r := range *mc.Referrers() {
+						if _, isGo := r.(*ssa.Go); isGo {
+							inGo = true
+						}
+					}
+				}
+			}
+		}
+	}
+	c.Check(inGo && !direct, "R20f", "worker ping runs in its own goroutine", p.Pos(wh.Pos()), "", "the worker's health loop calls Ping synchronously: a token whose Ping ignores its context (the PKCS#11 token does) blocks the loop forever, so a wedged device is never detected and the check for a vanished parent process is never reached")
+	// the wait is a select with a Done() case
+	okSel := false
+	for _, b := range wh.Blocks {
+		for _, in := range b.Instrs {
+			sel, ok := in.(*ssa.Select)
+			if !ok || !sel.Blocking {
+				continue
+			}
+			for _, st := range sel.States {
+				if call, _ := resultOf(st.Chan); call != nil && p.calleeName(call.Common()) == "(context.Context).Done" {
+					okSel = true
+				}
+			}
+		}
+	}
+	c.Check(okSel, "R20f", "worker waits for the ping or the timeout", p.Pos(wh.Pos()), "select with ctx.Done()", "the worker's health loop does not wait in a select that includes the timeout context's Done channel")
 }
